@@ -19,6 +19,7 @@ def run(ctx, report):
     # tree's decision (a fallback to another country's algorithm must not let foreign exceptions escape either)
     todo = [cc for cc in sorted(ctx.registry.countries) if struct_positions(ctx.registry, cc) is not None]
     ctx.facts.algorithm_table()
+    ctx.facts.tree_banks()
     pending = run_recorded_async(["R05-national"], lambda cc, rules: _bban_level(ctx, rules["R05-national"], cc, struct_positions(ctx.registry, cc), bban_cls, None), todo)
     m = IbanModel(ctx, with_validate=True)
     b = BicModel(ctx)
